@@ -591,31 +591,14 @@ func (ep *endpoint) handle(ctx context.Context, req *jsonrpc2.Request) (interfac
 	r := ep.r
 	ep.handling++
 	defer func() { ep.handling-- }()
-	if ep.handling > 1 {
-		r.fail("oracle:concurrent-handlers", ep.name+": Handle invoked while another Handle is running", "Handle invoked concurrently")
-	}
+	// (That handlers run one at a time and in arrival order is documented on the
+	// Handler interface but is not part of the statement of C39, so neither is
+	// judged here.)
 	if ep.closeRet {
 		r.fail("oracle:handle-after-close", ep.name+": Handle invoked after Close returned", "Handle invoked after Close returned")
 	}
 	var p params
 	json.Unmarshal(req.Params, &p)
-	// requests reach the Handler one at a time and in the order they arrived
-	pos := -1
-	for i := ep.handledAt; i < len(ep.arrived); i++ {
-		if ep.arrived[i] == p.Nonce {
-			pos = i
-			break
-		}
-	}
-	if pos < 0 {
-		for i := 0; i < ep.handledAt && i < len(ep.arrived); i++ {
-			if ep.arrived[i] == p.Nonce {
-				r.fail("oracle:handler-order", fmt.Sprintf("%s: Handle(%s nonce %d) was invoked after a request that arrived later", ep.name, req.Method, p.Nonce), "requests handled out of arrival order")
-			}
-		}
-	} else {
-		ep.handledAt = pos + 1
-	}
 	simrt.Yield("handler:" + req.Method)
 	if !req.IsCall() {
 		if req.Method == "fail" {
